@@ -1205,9 +1205,18 @@ def rule_sk_relay(cx, rep, port):
         return
 
     def strip(e):
-        while isinstance(e, ast.Await):
-            e = e.value
-        return e
+        # await x, bool(x), Boolean(x), not not x: the value of x as a verdict
+        while True:
+            if isinstance(e, ast.Await):
+                e = e.value
+            elif isinstance(e, ast.Call) and dotted(e.func) in ('bool', 'Boolean') and len(e.args) == 1 and not e.keywords:
+                e = e.args[0]
+            elif isinstance(e, ast.UnaryOp) and isinstance(e.op, ast.Not) and isinstance(e.operand, ast.UnaryOp) and isinstance(e.operand.op, ast.Not):
+                e = e.operand.operand
+            elif isinstance(e, ast.IfExp) and is_true(e.body) and is_false(e.orelse):
+                e = e.test
+            else:
+                return e
 
     def is_write(e):
         e = strip(e)
